@@ -80,12 +80,31 @@ def c07_partition(ctx, p):
     check_partition(ctx, src, ds, de, toks)
 
 
-def c08_role(ctx, src, ds, de, ref, got):
-    """classify a recognition mismatch (for known-findings suppression by role)"""
-    return 'recognition-mismatch'
+def c08_role(src, ds, de, ref, got):
+    """classify a recognition mismatch on concrete values (known-findings are suppressed by role, never by property)"""
+    def role():
+        rt = [x for x in ref if x[0] == 'E']
+        gt = [x for x in got if x[0] == 'E']
+        missing = [x for x in rt if x not in gt]
+        if not missing:
+            return 'spurious-tag' if [x for x in gt if x not in rt] else 'text-spans-differ'
+        _, s, e = missing[0]
+        gstarts = {x[1] for x in gt}
+        if s not in gstarts:
+            # the reference tag starts at s, the tokenizer has text there: is s reached inside a partial match of
+            # the start delimiter that began before s?
+            for p in range(max(0, s - len(ds) + 1), s):
+                if src[p:s] == ds[:s - p] and s - p < len(ds):
+                    return 'tag-start-missed-inside-partial-start-delimiter-match'
+        j = e - len(de)
+        for p in range(max(s + len(ds), j - len(de) + 1), j):
+            if src[p:j] == de[:j - p] and j - p < len(de):
+                return 'tag-end-missed-inside-partial-end-delimiter-match'
+        return 'tag-missed'
+    return role
 
 
-@harness('c08_recognition', covers=['tag-present', 'tag-after-partial-start', 'two-tags'])
+@harness('c08_recognition', covers=['tag-present', 'two-tags'])
 def c08_recognition(ctx, p):
     n = p['n']
     ds, de = delims(p, ctx)
@@ -96,15 +115,12 @@ def c08_recognition(ctx, p):
         ctx.cover('tag-present')
     if ntags >= 2:
         ctx.cover('two-tags')
-    for s in ref:
-        if s[0] == 'E' and s[1] > 0 and len(ds) > 1:
-            cover_if(ctx, 'tag-after-partial-start', b_eq(src[s[1] - 1], ds[0]))
     toks = ctx.impl.tokenize(src, ds, de)
     got = [(t['kind'], t['bs'], t['be']) for t in toks]
-    ctx.check(got == ref, f'token spans {got} differ from the left-to-right scan {ref}', c08_role(ctx, src, ds, de, ref, got))
+    ctx.check(got == ref, f'token spans {got} differ from the left-to-right scan {ref}', c08_role(src, ds, de, ref, got))
 
 
-@harness('c08_template', covers=['tag-present'])
+@harness('c08_template', covers=['tag-present', 'tag-after-partial-start', 'partial-end-inside-body'])
 def c08_template(ctx, p):
     """hole ds hole de hole : holes may contain delimiter characters"""
     ds, de = list(p['ds'].encode()), list(p['de'].encode())
@@ -115,6 +131,13 @@ def c08_template(ctx, p):
     ref = scan_tags(ctx, src, ds, de)
     if any(s[0] == 'E' for s in ref):
         ctx.cover('tag-present')
+    for s in ref:
+        # input-side witnesses: a tag whose first character directly follows a character that begins the start
+        # delimiter; a body that contains the first character of the end delimiter before the real end delimiter
+        if s[0] == 'E' and s[1] > 0:
+            cover_if(ctx, 'tag-after-partial-start', b_eq(src[s[1] - 1], ds[0]))
+        if s[0] == 'E' and s[2] - s[1] > len(ds) + len(de) + 1:
+            cover_if(ctx, 'partial-end-inside-body', b_eq(src[s[2] - len(de) - 1], de[0]))
     toks = ctx.impl.tokenize(src, ds, de)
     got = [(t['kind'], t['bs'], t['be']) for t in toks]
-    ctx.check(got == ref, f'token spans {got} differ from the left-to-right scan {ref}', c08_role(ctx, src, ds, de, ref, got))
+    ctx.check(got == ref, f'token spans {got} differ from the left-to-right scan {ref}', c08_role(src, ds, de, ref, got))
